@@ -19,8 +19,13 @@ let fixed_mode = not (try Sys.getenv "SELEN_ROUTES_PREFIX" = "1" with Not_found 
 (* SELEN_ROUTES_EXT_FIXED=1: the model of the tree AFTER the proposed repairs fixes/routes_ext/routes_table_nd_arity.patch and
    routes_element_nd_index.patch (call_ext_fixed of coq/Model/Routes.v); the default is the current tree *)
 let ext_fixed = fixed_mode   (* both patches are in /repo: b2362f9, a46069b *)
-let rbuild prog = if ext_fixed then rbuild_ext_fixed prog else if fixed_mode then rbuild_fixed prog else rbuild prog
-let rexec s m = if ext_fixed then rexec_ext_fixed s m else if fixed_mode then rexec_fixed s m else rexec s m
+(* The repairs fixes/routes_fix2/routes_gcc_len.patch (Model::gcc records a validation error for |values| <> |counts|) and
+   routes_empty_domain_read.patch (posting methods give their result variable the empty domain instead of reading min()/max() of an
+   empty operand domain): call_fix2 / rbuild_fix2 of coq/Model/Routes.v is the default; SELEN_ROUTES_FIX2_PREFIX=1 selects the model of
+   the tree before them (call_ext_fixed; witnesses of the former classes gcc_len / empty_domain_panic) *)
+let fix2 = ext_fixed && not (try Sys.getenv "SELEN_ROUTES_FIX2_PREFIX" = "1" with Not_found -> false)
+let rbuild prog = if fix2 then rbuild_fix2 prog else if ext_fixed then rbuild_ext_fixed prog else if fixed_mode then rbuild_fixed prog else rbuild prog
+let rexec s m = if fix2 then rexec_fix2 s m else if ext_fixed then rexec_ext_fixed s m else if fixed_mode then rexec_fixed s m else rexec s m
 let kf_noop_route r = if fixed_mode then false else kf_noop_route r
 let kf_felement_bounds r s = if fixed_mode then false else kf_felement_bounds r s
 
@@ -273,7 +278,7 @@ let rknown_class (prog : rstmt list) : string =
        if kf_felement_bounds r st then set "felement_bounds";
        if not fixed_mode && kf_linreif_len r then set "linreif_len";   (* repaired by e45322d *)
        if kf_linreif_zero r then set "lin_zero_coeffs";
-       if kf_gcc_len r then set "gcc_len";
+       if not fix2 && kf_gcc_len r then set "gcc_len";                   (* repaired: a recorded validation error (experr) *)
        if not ext_fixed && kf_element_nd_index r st then set "element_nd_index";
        if not ext_fixed && kf_element_nd_dummy r then set "element_nd_index";      (* same finding: the first row's length stands for every row's *)
        if not ext_fixed && kf_table_nd_arity r then set "table_nd_arity";
@@ -294,7 +299,7 @@ let rknown_class (prog : rstmt list) : string =
     let aux_oversize s = List.exists (fun (i, d) -> d = [] && not (List.mem i (List.map int_of_nat m.ruser))) (List.mapi (fun i d -> (i, d)) s) in
     let lowered = rlower m in
     let low_has f = match lowered with RLOk (_, ps) -> List.exists f ps | RLPanic -> false in
-    if m.rpanic || lowered = RLPanic then "BAD:empty_domain_panic "
+    if not fix2 && (m.rpanic || lowered = RLPanic) then "BAD:empty_domain_panic "   (* repaired: the model never panics *)
     else if (match lowered with RLOk (s, ps) -> rvalidate s ps = Some VInvalidDomain && (aux_oversize s || not (List.exists (fun d -> d = []) s)) | RLPanic -> false) then "BAD:oversize_domain "
     else if List.exists (fun c -> kf_or_not (fold_cons c)) cs then "BAD:or_not "
     else if low_has (function PB (PLinEq (c, x, _)) | PB (PLinLe (c, x, _)) -> all_zero c x | _ -> false) then "BAD:lin_zero_coeffs "
